@@ -28,10 +28,9 @@ RULE = (
     "random trees (<= 8 components, depth <= 3); per tree ALL fault positions (every component x {constructor, every step boundary of prepare(), "
     "every step boundary of start()}) with exception classes {ValueError, custom Exception, LookupError, ExceptionGroup}, and ALL timeout "
     "positions (every gap of the critical-path schedule + one beyond the end, and timeout=None for the faults); one backend per tree, seeded "
+    "trio scheduling. "
     "One case in five is a nested scenario: start_component(timeout=T) called from prepare()/start() of a root or child component, inner start-up needing 0.25-4 virtual seconds or for ever, error caught or propagated, outer timeout None/100. "
-    "trio scheduling. Non-trivial: a fault or timeout that strikes while at least one other component is mid-startup; distinct = (tree shape, "
-    "fault position or timeout, interleaving signature)."
-)
+    "Non-trivial: a fault or timeout that strikes while at least one other component is mid-startup; distinct = (tree shape, ")
 DECIDING = {
     "nested_timeouts_expiring": "start_component(timeout=T) called from inside a component, inner start-up longer than T",
     "nested_timeouts_not_expiring": "start_component(timeout=T) called from inside a component, inner start-up shorter than T",
